@@ -230,8 +230,34 @@ func checkC10(cx *Ctx, r *Report) {
 				if !has || !cx.errDisciplined(call) {
 					continue
 				}
-				_, tested := fx.errBranches(e)
-				r.Check(!discarded && tested, "R-ERR", key+":"+shortCallee(calleeName(call)), w.InstrPos(call), "error tested", "error of "+calleeName(call)+" ignored in a function that cannot report it")
+				nonNil, tested := fx.errBranches(e)
+				bad := ""
+				if discarded || !tested {
+					bad = "error of " + calleeName(call) + " ignored in a function that cannot report it"
+				} else if aps, okp := fx.atomPaths(fn, 4096); okp {
+					// the function cannot report the failure: on the failing branch it may only return zero values
+					// (never the sibling results of the failed call or anything computed from them)
+					for i := range aps {
+						p := &aps[i]
+						through := false
+						for _, nb := range nonNil {
+							if p.Has(nb) {
+								through = true
+							}
+						}
+						if !through || p.Ret == nil {
+							continue
+						}
+						for ri := range p.Ret.Results {
+							rv := fx.retVal(p, ri)
+							if _, isC := rv.(*ssa.Const); isC {
+								continue // a constant verdict / zero value: nothing of the failed call is passed on
+							}
+							bad = "after " + shortCallee(calleeName(call)) + " failed the function goes on and returns " + fx.path(rv) + " as if nothing had happened (" + w.InstrPos(p.Ret) + ")"
+						}
+					}
+				}
+				r.Check(bad == "", "R-ERR", key+":"+shortCallee(calleeName(call)), w.InstrPos(call), "error tested; the failing branch returns only zero values", bad)
 			}
 		}
 	}
